@@ -32,6 +32,18 @@ def jsonable(o):
     return repr(o)
 
 
+def _strict(o):
+    """Evidence must be strict JSON: non-finite floats (NaN / inf in extreme-data samples, infinite
+    bounds) are written as strings there.  Replay files keep the real values."""
+    if isinstance(o, dict):
+        return {k: _strict(v) for k, v in o.items()}
+    if isinstance(o, list):
+        return [_strict(v) for v in o]
+    if isinstance(o, float) and not np.isfinite(o):
+        return repr(o)
+    return o
+
+
 def digest(o) -> str:
     return hashlib.sha1(
         json.dumps(jsonable(o), sort_keys=True, default=repr).encode()
@@ -83,7 +95,7 @@ class Ctx:
 
     def sample(self, obj, cap=4):
         if len(self.samples) < cap:
-            self.samples.append(jsonable(obj))
+            self.samples.append(_strict(jsonable(obj)))
 
     def violation(self, sub, mech, msg, recipe, extra=None):
         key = f"{sub}|{mech}"
